@@ -125,7 +125,7 @@ def run(chk):
 
     # ---- 2. the no-op templates through the CLI, all three modes
     n_trees = 40 if chk.tier == "quick" else 600
-    name_pool = ["a", "a.txt", ".hidden", "trail.", "a.b.c", "...", "..x", "sp ace.t x", "é.ñ", "100%", "{x}", "a|b", "x\\y",
+    name_pool = ["~", "~x", "~$report.docx", "~root", "a~", "$HOME", "${x}", "a", "a.txt", ".hidden", "trail.", "a.b.c", "...", "..x", "sp ace.t x", "é.ñ", "100%", "{x}", "a|b", "x\\y",
                  "'q'", "\"d\"", "-dash", "tab\tname", "a.tar.gz", ".a.b", "%Name()", "UP.TXT", "noext", "x.", "  ", "$(x)", "*",
                  # names that are not in a Unicode normal form / have compatibility look-alikes: any
                  # normalisation, case folding or re-encoding between rendering and comparing shows here
